@@ -33,7 +33,7 @@ def scopes(tier):
     # matchrule semantics (what "a matching exception" means): all single rules and pairs of rules over a
     # small alphabet, inverted or not, data shorter / longer than the values
     if q:
-        out.append(("size+match", {"Parts": '{"size", "match"}'}))
+        out.append(("size+match", {"Parts": '{"size", "match"}', "MSyms": "{1, 2, 3}", "MCi": "{FALSE, TRUE}"}))
     else:
         out.append(("size+match", {"Parts": '{"size", "match"}', "MSyms": "{1, 2, 3}", "MCi": "{FALSE, TRUE}", "MPairLens": "{1, 2, 3}"}))
     # a rule gives source 2 its own threshold, below / equal / above the global one; long enough to flood a
@@ -104,12 +104,17 @@ def strict_runs(ctx):
                             "T2s": "{1}", "Us": "{4, 1}", "Modes": '{"rules"}', "M_CapPerSource": "FALSE"})
     r5 = ctx.tlc("Admission", "Admission_mutant.cfg", timeout=300, deadlock=False, name="mutant/shortcut-before-invert",
                  overrides={"Parts": '{"match"}', "M_InvertAfterShortcut": "FALSE"})
+    r6 = ctx.tlc("Admission", "Admission_mutant.cfg", timeout=300, deadlock=False, name="mutant/lowered-in-place",
+                 overrides={"Parts": '{"match"}', "MSyms": "{1, 3}", "MCi": "{TRUE}", "M_LowerCopies": "FALSE"})
+    if r6.violated != "DataUnchanged":
+        raise vlib.Infra("specification mutant that folds case in place does not violate DataUnchanged (%s)" % r6.violated)
     if r4.violated != "UnbanWithin":
         raise vlib.Infra("specification mutant without the per-source cap does not violate UnbanWithin (%s)" % r4.violated)
     if r5.violated != "MatchAgrees":
         raise vlib.Infra("specification mutant with the length shortcut ahead of Invert does not violate MatchAgrees (%s)" % r5.violated)
     return {"residual_on_violates": r1.violated, "exceptions_ignored_on_violates": r2.violated, "both_off_ok": r3.ok,
-            "mutant_cap_global_violates": r4.violated, "mutant_shortcut_before_invert_violates": r5.violated}
+            "mutant_cap_global_violates": r4.violated, "mutant_shortcut_before_invert_violates": r5.violated,
+            "mutant_lowered_in_place_violates": r6.violated}
 
 
 def run(ctx):
